@@ -418,6 +418,11 @@ func boundPads(t *rapid.T, n *ref.Node) {
 			if len(x.Kids) > 2 {
 				// pad strings of at most 8 bytes, the empty one included
 				pad := rapid.SampledFrom([]string{"xy", "xy", "", "-", "01234567"}).Draw(t, "pad")
+				if pad == "01234567" && len(x.Kids) > 3 && strings.Contains(x.Kids[3].Text(), "1000000") {
+					// eight million digits are a number whose conversion alone takes minutes (quadratic in the
+					// length of the value, not a matter of this property): digits only with short lengths
+					pad = "xy"
+				}
 				x.Kids[2] = &ref.Node{Kind: "str", Val: pad, Src: "'" + pad + "'"}
 			}
 			x.Spread = false
